@@ -31,9 +31,10 @@ class Doc(object):
         return ''.join(self.parts)
 
 
-STR_BODIES = ['abc', '', 'a b', 'x,y', 'q\\"q', 'l\\nm', 'p\\\\p', 'd\\$d', u'caf\\u00e9', u'été', 'tab\\there',
+LONG = 'the quick brown fox jumps over the lazy dog 0123456789'
+STR_BODIES = [LONG, LONG[:30], 'abc', '', 'a b', 'x,y', 'q\\"q', 'l\\nm', 'p\\\\p', 'd\\$d', u'caf\\u00e9', u'été', 'tab\\there',
               '[not a list]', '{k:v}', '<<g>>', 'N', 'ver:\\"2.0\\"', u'中', '2020-01-01']
-URI_BODIES = ['http://x/', 'a\\`b', 'p?q=1&r=2', 'h\\:p', u'u\\u00e9', '']
+URI_BODIES = ['http://example.org/a/rather/long/path/to/a/resource?with=query', 'http://x/', 'a\\`b', 'p?q=1&r=2', 'h\\:p', u'u\\u00e9', '']
 NAMES = ['a', 'b', 'c', 'dis', 'siteRef', 'n_1', 'curVal', 'x9']
 TZ = ['2020-01-31T12:00:00+10:00 Brisbane', '2020-06-01T00:00:00Z UTC', '2021-03-28T01:30:00+01:00 Berlin',
       '1999-12-31T23:59:59.999-05:00 New_York', '2020-01-01T00:00:00+00:00 GMT+0', '2020-01-01T00:00:00Z']
